@@ -162,6 +162,9 @@ def gen_inputs(interp, shape, rng, n_samples, max_len=10, int_range=14, exhausti
             if d[0] == 'int':
                 if name.endswith('.ml') or name.endswith('.pos'):
                     vals[name] = rng.choice([rng.randint(0, max_len + 8), rng.randint(0, max(L, 1))])
+                elif name in getattr(shape, 'big', ()) and rng.random() < 0.3:
+                    # an argument that may be astronomically large without sizing anything (a shift or rotation count, a read count)
+                    vals[name] = rng.choice(boundary_ints())
                 else:
                     vals[name] = rng.choice([rng.randint(-int_range, int_range), rng.randint(-3, 3), rng.randint(0, max_len)])
             elif d[0] == 'bool':
